@@ -473,7 +473,11 @@ def run_check(pid, spec, tier, seed, only_stage=None, build_only=False):
                 os.unlink(crash['trace'])
             if not confirmed:
                 log('[%s] stage %s: crash could not be attributed to a stored case; no verdict' % (pid, st.name))
-                return 2
+                if not violations:
+                    return 2
+                # (violations already established - e.g. configurations that no longer compile, which is also why a differential
+                # stage may have nothing left to compare - are still reported)
+                notes.append('stage %s ended without a verdict (rc %s)' % (st.name, crash['returncode']))
             continue
         res['stage'] = st.name
         res['kind'] = st.kind
